@@ -58,9 +58,13 @@ with ThreadPoolExecutor(max_workers=JOBS) as ex:
 for sid in ids:
     meta = metas[sid]
     res = {chk: r for (s2, chk), r in results if s2 == sid}
+    print(sid, res, flush=True)
+    if os.environ.get("MATRIX_DRY"):
+        continue          # e.g. a run under another VERIF_SEED: print only
     meta["detected_by"] = res
     json.dump(meta, open(os.path.join(HERE, "seeded", sid, "meta.json"), "w"), indent=1)
-    print(sid, res, flush=True)
+if os.environ.get("MATRIX_DRY"):
+    sys.exit(0)
 with open(os.path.join(HERE, "seeded", "MATRIX.md"), "w") as fh:
     fh.write("# Seeded changes vs checks (quick tier)\n\n| id | property | change | result |\n|---|---|---|---|\n")
     allmeta = sorted(d for d in os.listdir(os.path.join(HERE, "seeded")) if os.path.isdir(os.path.join(HERE, "seeded", d)))
